@@ -148,6 +148,40 @@ int main(int argc, char **argv) {
 			if (cyc && t2.size() == n) for (size_t i = 0; i < n; i++)
 				if (t2[(i + off) % n] != types[i]) { propfail("rot-offset", "after a rotation with reported offset " + std::to_string(off) + " input card " + std::to_string(i) + " is not at position (i+offset) mod n, n=" + std::to_string(n)); break; }
 		}
+		// state kept across calls: the result stack is NOT fresh (0, 1, n, 2n old cards); the result must be the same n cards
+		for (unsigned k = 0; k < (T ? 120u : 30u); k++) {
+			size_t n = 1 + gen().below(k % 5 == 0 ? 12 : 5);
+			TMCG_Stack<VTMF_Card> s, s2, junk; std::vector<size_t> types, jt;
+			make_stack(G, n, 1 + gen().below(4), s, types);
+			size_t pre[] = { 0, 1, n, 2 * n, 3 };
+			size_t np = pre[k % 5];
+			make_stack(G, np, 4, junk, jt);
+			for (size_t i = 0; i < np; i++) s2.push(junk[i]);
+			std::string old = tok_vstack(s2);
+			TMCG_StackSecret<VTMF_CardSecret> ss; secret_from(G, random_perm(n), ss);
+			G.tmcg->TMCG_MixStack(s, s2, ss, G.vtmf, gen().coin());
+			Rec("mixinto").z(G.vtmf->p).z(G.vtmf->g).z(G.vtmf->h).t(old).t(tok_vstack(s)).t(tok_vss(ss)).t("ret:" + tok_vstack(s2));
+			oracle_mix(G, types, ss, s2, "result stack reused, it held " + std::to_string(np) + " cards before; n=" + std::to_string(n));
+			// second shuffle into the same (now used) result stack
+			TMCG_StackSecret<VTMF_CardSecret> ss2; secret_from(G, random_perm(n), ss2);
+			G.tmcg->TMCG_MixStack(s, s2, ss2, G.vtmf, false);
+			oracle_mix(G, types, ss2, s2, "second shuffle into the same result stack; n=" + std::to_string(n));
+			// assignment / copy into a used object
+			TMCG_Stack<VTMF_Card> a; for (size_t i = 0; i < np; i++) a.push(junk[i]);
+			a = s2; TMCG_Stack<VTMF_Card> b(s2);
+			if (!(a == s2) || a.size() != n || !(b == s2)) propfail("stack-assign", "assignment/copy of a stack of " + std::to_string(n) + " cards into a used object gives " + std::to_string(a.size()) + " cards");
+			TMCG_StackSecret<VTMF_CardSecret> sa; secret_from(G, random_perm(np + 1), sa);
+			sa = ss;
+			if (sa.size() != ss.size() || firsts(sa) != firsts(ss)) propfail("stack-assign", "assignment of a stack secret into a used object changes it");
+		}
+		{	// near the capacity: 510 old cards, 5 new ones -> 5 cards
+			TMCG_Stack<VTMF_Card> s, s2; std::vector<size_t> types; make_stack(G, 5, 3, s, types);
+			VTMF_Card c; G.tmcg->TMCG_CreateOpenCard(c, G.vtmf, 0);
+			for (size_t i = 0; i < TMCG_MAX_CARDS - 2; i++) s2.push(c);
+			TMCG_StackSecret<VTMF_CardSecret> ss; secret_from(G, random_perm(5), ss);
+			G.tmcg->TMCG_MixStack(s, s2, ss, G.vtmf, false);
+			oracle_mix(G, types, ss, s2, "result stack held TMCG_MAX_CARDS-2 cards before; n=5");
+		}
 		// big stacks: implementation-level oracle only (sizes up to TMCG_MAX_CARDS in thorough)
 		size_t big[] = { 52, 128, TMCG_MAX_CARDS };
 		for (size_t n : big) {
@@ -183,8 +217,9 @@ int main(int argc, char **argv) {
 			G.tmcg->TMCG_CreateStackSecret(sigma, gen().below(3) == 0, n < 2 ? 2 : n, G.vtmf);
 			if (n < 2) secret_from(G, random_perm(n), sigma);
 			secret_from(G, random_perm(n), pi);
-			gam = pi;
+			gam = pi; std::string sig0 = tok_vss(sigma);
 			G.tmcg->TMCG_GlueStackSecret(sigma, gam, G.vtmf);
+			if (tok_vss(sigma) != sig0) propfail("glue-sigma-changed", "TMCG_GlueStackSecret changed its first argument");
 			if (n <= 16) Rec("glue").z(G.vtmf->q).t(tok_vss(sigma)).t(tok_vss(pi)).t("ret:" + tok_vss(gam));
 			G.tmcg->TMCG_MixStack(s, s1, sigma, G.vtmf, false);
 			G.tmcg->TMCG_MixStack(s1, s2, pi, G.vtmf, false);
@@ -290,8 +325,9 @@ int main(int argc, char **argv) {
 					size_t off = tm.TMCG_CreateStackSecret(ss, cyc, ring, pl, n);
 					std::vector<size_t> f; for (size_t i = 0; i < ss.size(); i++) f.push_back(ss[i].first);
 					if (f.size() != n || !is_bijection(f)) { propfail("qr-css-bijection", "generated QR stack secret is not a bijection: " + tok_idx(f) + " (" + cfs + ")"); bad = true; break; }
+					{ size_t pre = (k + pl) % 4 == 0 ? 0 : ((k + pl) % 4 == 1 ? 1 : ((k + pl) % 4 == 2 ? n : 2 * n)); for (size_t j = 0; j < pre; j++) nxt.push(cur[j % n]); }   // used result stack
 					tm.TMCG_MixStack(cur, nxt, ss, ring, gen().coin());
-					if (nxt.size() != n) { propfail("qr-mix-size", "mixed QR stack has the wrong size (" + cfs + ")"); bad = true; break; }
+					if (nxt.size() != n) { propfail("qr-mix-size", "mixed QR stack has " + std::to_string(nxt.size()) + " cards instead of " + std::to_string(n) + " (result stack was not fresh; " + cfs + ")"); bad = true; break; }
 					std::vector<size_t> got(n); for (size_t i = 0; i < n; i++) got[i] = open(nxt[i]);
 					for (size_t i = 0; i < n; i++) if (got[i] != expect[f[i]]) { propfail("qr-mix-type", "QR encoding (" + cfs + ", shuffling player " + std::to_string(pl) + (cyc ? ", rotation" : ", permutation") + "): card " + std::to_string(i) + " opens to type " + std::to_string(got[i]) + ", designated input card " + std::to_string(f[i]) + " has type " + std::to_string(expect[f[i]]) + ", indices " + tok_idx(f)); bad = true; break; }
 					if (cyc && !bad) for (size_t i = 0; i < n; i++) if (got[(i + off) % n] != expect[i]) { propfail("qr-rot-offset", "QR encoding: rotation offset " + std::to_string(off) + " wrong for indices " + tok_idx(f)); bad = true; break; }
